@@ -36,7 +36,7 @@ func oneshotWL(x *mon.Ctx) {
 	big := newBufs(1<<16 + 64)
 	defer big.free()
 
-	reps := x.Scale(1, 10)
+	reps := x.Scale(1, 20)
 	if raceBuild(x) {
 		reps = x.Scale(1, 2) // checkptr needs every path once, not random depth
 	}
